@@ -24,7 +24,7 @@ ASSUMPTIONS = ["reference gate: accept iff exponent vectors equal after erasing 
                "SymPy dimsys_SI expansion of dimensions; own unit table for derived spellings"]
 N = {"quick": 3200, "thorough": 32000}
 MIN_REACH = {"quick": {"core_calls": 12000, "accept": 1200, "TypeError": 1500, "UnitsError": 3000, "sequence": 500, "vector": 200,
-                       "output": 500, "output_same": 150, "catalogue_functions": 600, "catalogue_params": 1500},
+                       "output": 500, "output_same": 150, "catalogue_functions": 600, "catalogue_params": 1500, "curvilinear_vector_calls": 600, "foreign_dimension_calls": 300},
              "thorough": {"core_calls": 100000, "catalogue_functions": 600, "catalogue_params": 1500}}
 SHARD_TIMEOUT = {"quick": 600, "thorough": 3000}
 
@@ -333,6 +333,101 @@ def core_case(r, rec):
         rec.sample(dict(case, reference=sorted(verdicts), observed=outcomes[0][3]))
 
 
+def curvilinear_vector_case(r, rec):
+    """quantity vectors given in cylindrical / spherical coordinates: angle components are angles, every other component
+    carries the vector's dimension; a vector is 'zero' (any dimension) only if all its components are"""
+    import sympy
+    from symplyphysics import validate_input, validate_output, Quantity, QuantityVector, CoordinateSystem
+    declared_vec = rand_vec(r)
+    if declared_vec == units_ref.ZERO:
+        return
+    decl, decl_kind = make_declaration(r, declared_vec)
+    if decl_kind == "wildcard":
+        return
+    sysname = r.choice(["CYLINDRICAL", "SPHERICAL"])
+    cs = CoordinateSystem(getattr(CoordinateSystem.System, sysname))
+    same = r.random() < 0.4
+    actual_vec = declared_vec
+    while not same and actual_vec == declared_vec:
+        actual_vec = rand_vec(r)
+    if actual_vec == units_ref.ZERO:
+        return
+    unit = base_expr(actual_vec)
+    adim = dimension_of(actual_vec)
+
+    def lin(kind):
+        if kind == "zero":
+            return r.choice([0, sympy.Float(0.0), Quantity(0 * unit)])
+        return Quantity(r.choice([2, sympy.Rational(7, 3), -1.5]) * unit)
+    n_lin = 2 if sysname == "CYLINDRICAL" else 1
+    kinds = [r.choice(["zero", "zero", "value"]) for _ in range(n_lin)]
+    # (angles are given as dimensionless quantities: a bare number would be given the vector's dimension by `dimension=`)
+    angles = [Quantity(r.choice([0, 0, sympy.Rational(7, 10)])) for _ in range(3 - n_lin)]
+    if all(k == "zero" for k in kinds) and any(a.scale_factor != 0 for a in angles):
+        return  # (which object 'zero radius, non-zero angle' is, the statement does not say)
+    comps = [lin(kinds[0]), angles[0], lin(kinds[1])] if sysname == "CYLINDRICAL" else [lin(kinds[0]), angles[0], angles[1]]
+    case = {"system": sysname, "declared": units_ref.vfmt(declared_vec), "actual": units_ref.vfmt(actual_vec), "components": [str(c) for c in comps], "decl_kind": decl_kind}
+    try:
+        obj = QuantityVector(comps, cs, dimension=adim)
+    except Exception as x:  # pylint: disable=broad-except
+        rec.violation(f"vector-construction-refused:{type(x).__name__}:{sysname}", f"QuantityVector({case['components']}, {sysname}, dimension={adim}) refused: {str(x)[:120]}", case)
+        return
+    want = "ok" if (same or all(k == "zero" for k in kinds)) else "UnitsError"
+
+    @validate_input(p_=decl)
+    def f(other, p_):  # pylint: disable=unused-argument
+        return 1
+
+    @validate_output(decl)
+    def g(x):
+        return x
+    rec.case(("curvilinear", str(case)), nontrivial=not same)
+    for sname, call in (("input/positional", lambda: f(1, obj)), ("input/keyword", lambda: f(other=1, p_=obj)), ("output", lambda: g(obj))):
+        got, msg = observe(call)
+        rec.hit("curvilinear_vector_calls")
+        if got != want:
+            kind = "admits" if got == "ok" else ("refuses" if want == "ok" else "wrong-exception")
+            rec.violation(f"{kind}:curvilinear-vector:{sysname}", f"{sname}: declared {case['declared']} ({decl_kind}), {sysname} vector {case['components']} of dimension {case['actual']}: observed {got} ({msg[:100]}), reference {want}", case)
+            return
+
+
+def foreign_dimension_case(r, rec):
+    """a base dimension outside the seven SI ones (information) is a dimension like any other: a factor of it makes a
+    quantity inequivalent, and a declaration that carries it admits exactly the quantities that carry it too"""
+    import sympy
+    from sympy.physics import units as U
+    from symplyphysics import validate_input, validate_output, Quantity, Symbol
+    declared_vec = rand_vec(r)
+    base = base_expr(declared_vec)
+    info_unit = r.choice([U.bit, U.byte, U.kibibyte])
+    mag = r.choice([2, sympy.Rational(7, 3), 1.5])
+    decl_with = r.random() < 0.5
+    decl_dim = dimension_of(declared_vec) * (U.bit.dimension if decl_with else 1)
+    decl = decl_dim if r.random() < 0.5 else Symbol("decl", decl_dim)
+    arg_with = r.random() < 0.5
+    arg = Quantity(mag * base * (info_unit if arg_with else 1))
+    if not decl_with and not arg_with and declared_vec == units_ref.ZERO:
+        return
+    want = "ok" if decl_with == arg_with else "UnitsError"
+    case = {"declared": units_ref.vfmt(declared_vec) + (" x information" if decl_with else ""), "actual": str(mag * base * (info_unit if arg_with else 1))}
+
+    @validate_input(p_=decl)
+    def f(p_):  # pylint: disable=unused-argument
+        return 1
+
+    @validate_output(decl)
+    def g(x):
+        return x
+    rec.case(("foreign", str(case)), nontrivial=True)
+    for sname, call in (("input", lambda: f(arg)), ("input/keyword", lambda: f(p_=arg)), ("output", lambda: g(arg))):
+        got, msg = observe(call)
+        rec.hit("foreign_dimension_calls")
+        if got != want:
+            kind = "admits" if got == "ok" else ("refuses" if want == "ok" else "wrong-exception")
+            rec.violation(f"{kind}:information-dimension", f"{sname}: declared {case['declared']}, actual {case['actual']}: observed {got} ({msg[:100]}), reference {want}", case)
+            return
+
+
 # ---------- (b) catalogue ----------
 def kind_of_param(inner, name):
     try:
@@ -470,6 +565,10 @@ def work(spec, rec):
         try:
             with harness.Watchdog(30):
                 core_case(rr, rec)
+                if i % 4 == 0:
+                    curvilinear_vector_case(rr, rec)
+                if i % 8 == 1:
+                    foreign_dimension_case(rr, rec)
         except TimeoutError:
             rec.inconc("watchdog")
 
